@@ -43,7 +43,7 @@ theorem contains_false_of_none {t : TreeMap Nat Int} {j : Nat} (h : t[j]? = none
 
 /-! ### total step lemmas (no assumption on the outcome) -/
 
-theorem liftM_total {op : M α} (hs : CoreKeeps off op) (a : AMgr) (hi : AInv off a)
+theorem liftM_total {op : M α} (a : AMgr) (hs : CoreKeepsAt off a.m op) (hi : AInv off a)
     (r : Except Err α) (a' : AMgr) (he : AM.liftM op a = (r, a')) :
     AInv off a' ∧ a'.handles = a.handles ∧
     (∀ (j : Nat) (u : Int), a.handles[j]? = some u →
@@ -54,8 +54,8 @@ theorem liftM_total {op : M α} (hs : CoreKeeps off op) (a : AMgr) (hi : AInv of
     rw [hop] at he
     simp only at he
     cases he
-    obtain ⟨h1, h2, h3, h4⟩ := hs.keeps a.m (hext a) hi.mode hi.inv hi.counts r m' hop
-    obtain ⟨i', hd⟩ := hi.after_core h1 h2 h3 h4
+    obtain ⟨h1, h3⟩ := hs (hext a) hi.minv r m' hop
+    obtain ⟨i', hd⟩ := hi.after_core h1 h3
     exact ⟨i', rfl, hd⟩
 
 /-- `wrapF` / `wrap` with a free id, whatever the integer -/
@@ -129,10 +129,10 @@ theorem Ch.free {T : List Nat} {a b : AMgr} (c : Ch off T a b) {t : Nat} (ht : b
   · rw [← c.same t hm]; exact ht
 
 /-- a core operation in the middle of an autoref operation -/
-theorem Ch.core {T : List Nat} {a b : AMgr} (c : Ch off T a b) {op : M α} (hs : CoreKeeps off op)
+theorem Ch.core {T : List Nat} {a b : AMgr} (c : Ch off T a b) {op : M α} (hs : CoreKeepsAt off b.m op)
     {r : Except Err α} {b' : AMgr} (he : AM.liftM op b = (r, b')) :
     Ch off T a b' ∧ b'.handles = b.handles := by
-  obtain ⟨i', hh, hd⟩ := liftM_total hs b c.inv r b' he
+  obtain ⟨i', hh, hd⟩ := liftM_total b hs c.inv r b' he
   refine ⟨⟨i', c.fresh, fun j hj => by rw [hh]; exact c.same j hj, fun j u hj => ?_⟩, hh⟩
   obtain ⟨m1, d1⟩ := c.den j u hj
   obtain ⟨m2, d2⟩ := hd j u (c.live hj)
@@ -220,7 +220,10 @@ theorem forall_mem3 {P : Nat → Prop} {x y z : Nat} (hx : P x) (hy : P y) (hz :
   rcases ht with rfl | rfl | rfl <;> assumption
 
 /-- `t2 = other | t1` -/
-theorem fLeOr_ch (hor : ∀ u v, CoreKeeps off (apply "or" u (some v) none)) {T : List Nat} {a b : AMgr} (c : Ch off T a b) (ho : Nat) (n1 : Int)
+theorem fLeOr_ch (hor : ∀ (b : AMgr), AInv off b → ∀ (j1 j2 : Nat) (u v : Int), b.handles[j1]? = some u →
+      b.handles[j2]? = some v → CoreKeepsAt off b.m (apply "or" u (some v) none))
+    {T : List Nat} {a b : AMgr} (c : Ch off T a b) (ho : Nat) (n1 : Int) (t1 : Nat)
+    (ht1 : b.handles[t1]? = some n1)
     (t2 : Nat) (hf : b.handles[t2]? = none) (r : Except Err Int) (b' : AMgr)
     (he : fLeOr ho n1 t2 b = (r, b')) :
     Ch off (t2 :: T) a b' ∧ (∀ j : Nat, j ≠ t2 → b'.handles[j]? = b.handles[j]?) ∧
@@ -249,7 +252,8 @@ theorem fLeOr_ch (hor : ∀ u v, CoreKeeps off (apply "or" u (some v) none)) {T 
       cases hx2 : AM.liftM (apply "or" o (some n1) none) b1 with
       | mk r2 b2 =>
         rw [hx2] at he
-        obtain ⟨c2, hh2⟩ := c.core (hor o n1) hx2
+        have hoh : b1.handles[ho]? = some o := nodeSame_handle ho b1 o (by rw [hx])
+        obtain ⟨c2, hh2⟩ := c.core (hor b1 c.inv ho t1 o n1 hoh ht1) hx2
         have hf2 : b2.handles[t2]? = none := by rw [hh2]; exact hf
         cases r2 with
         | error e =>
@@ -278,7 +282,8 @@ theorem fLeOr_ch (hor : ∀ u v, CoreKeeps off (apply "or" u (some v) none)) {T 
 
 /-- `Function.__le__`: the three temporaries are released; nothing else changes -/
 theorem fLe_keeps0 (hnot : ∀ u, CoreKeeps off (apply "not" u none none))
-    (hor : ∀ u v, CoreKeeps off (apply "or" u (some v) none)) (hs ho : Nat) :
+    (hor : ∀ (b : AMgr), AInv off b → ∀ (j1 j2 : Nat) (u v : Int), b.handles[j1]? = some u →
+      b.handles[j2]? = some v → CoreKeepsAt off b.m (apply "or" u (some v) none)) (hs ho : Nat) :
     AKeeps0 off (fLe hs ho) := by
   intro a hi r a' he
   unfold fLe at he
@@ -302,7 +307,7 @@ theorem fLe_keeps0 (hnot : ∀ u, CoreKeeps off (apply "not" u none none))
       cases hx3 : AM.liftM (apply "not" s none none) a1 with
       | mk r3 a3 =>
         rw [hx3] at he
-        obtain ⟨c3, hh3⟩ := (Ch.refl hi).core (hnot s) hx3
+        obtain ⟨c3, hh3⟩ := (Ch.refl hi).core ((hnot s).at _) hx3
         cases r3 with
         | error e =>
           simp only at he; cases he
@@ -326,7 +331,7 @@ theorem fLe_keeps0 (hnot : ∀ u, CoreKeeps off (apply "not" u none none))
               | mk r5 a5 =>
                 rw [hx5] at he
                 simp only at he
-                obtain ⟨c5, hfr5, hres5⟩ := fLeOr_ch hor c4 ho n1 t2 hn2 r5 a5 hx5
+                obtain ⟨c5, hfr5, hres5⟩ := fLeOr_ch hor c4 ho n1 t1 hl4 t2 hn2 r5 a5 hx5
                 have h21 : t1 ≠ t2 := fun h => by rw [h, hn2] at hl4; cases hl4
                 cases hx6 : drop t1 a5 with
                 | mk r6 a6 =>
@@ -440,7 +445,8 @@ theorem fNe_read (hs ho : Nat) : ARead (fNe hs ho) := by
 
 /-- `Function.__lt__` -/
 theorem fLt_keeps0 (hnot : ∀ u, CoreKeeps off (apply "not" u none none))
-    (hor : ∀ u v, CoreKeeps off (apply "or" u (some v) none)) (hs ho : Nat) :
+    (hor : ∀ (b : AMgr), AInv off b → ∀ (j1 j2 : Nat) (u v : Int), b.handles[j1]? = some u →
+      b.handles[j2]? = some v → CoreKeepsAt off b.m (apply "or" u (some v) none)) (hs ho : Nat) :
     AKeeps0 off (fLt hs ho) := by
   unfold fLt
   refine (fLe_keeps0 hnot hor hs ho).then_read fun le => ?_
